@@ -519,6 +519,16 @@ def run(ctx):
         ens = rng.choice(lat, size=(n, m))
         obs = rng.choice(np.concatenate([lat, lat + 0.25]), size=n)
         censor = float(rng.choice([-10.0, -1.0, 0.0, 0.25, 1.5, -2.5, -1.5, -2.75, 2.5]))
+        if it % 6 == 4 and m >= 3:
+            # closely spaced members next to one member (or observation) 13 to 17 decades
+            # larger: still distinct numbers, each counted on its own
+            ens = 1.0 + rng.integers(0, 40, size=(n, m)) / 1024.0
+            obs = 1.0 + (rng.integers(0, 40, size=n) + 0.5) / 1024.0
+            big = float(rng.choice([5e13, 2.0 ** 50, 1e17, -3e15]))
+            ens[np.arange(n), rng.integers(0, m, size=n)] = big
+            if it % 12 == 4:
+                obs[int(rng.integers(0, n))] = big * 2
+            censor = 0.0
         run_pit_case(ctx, {"kind": "pit", "obs": obs, "ens": ens,
                            "random": bool(it % 2), "cst": float(rng.uniform(0, 0.5))
                            if it % 5 else [0.0, 0.5][it % 2],
